@@ -25,7 +25,7 @@ SPEC = {
              "or the program contains both a store and a load of the variable inside different control constructs."),
     "assumptions": ["vlib/defassign.py definite-assignment analysis (source-level control-flow paths)", "vlib/refeval.py for the run-time echo"],
     "min_evaluations": {"quick": 8000, "thorough": 80000},
-    "must_reach": ["must_reject_rejected", "clean_accepted", "in_sub", "in_main", "runtime_echo_runs", "mutated_random", "diamonds", "nested_loops", "shared_subroutine_rejected", "shared_subroutine_accepted", "many_paths_rejected", "after_router_sequences", "same_name_rejected"],
+    "must_reach": ["must_reject_rejected", "clean_accepted", "in_sub", "in_main", "runtime_echo_runs", "mutated_random", "diamonds", "nested_loops", "shared_subroutine_rejected", "shared_subroutine_accepted", "many_paths_rejected", "after_router_sequences", "same_name_rejected", "terminal_arms"],
     "shard_timeout": {"quick": 2400, "thorough": 14400},
 }
 
@@ -429,6 +429,18 @@ def run_shard(shard):
         shared_subroutine_probe(pt, acc, rng)
     for _ in range(2):
         many_paths_probe(pt, acc, rng)
+    # ---- arms that store and leave the routine
+    for j, (tag, body) in enumerate(terminal_arm_family()):
+        if j % N != S:
+            continue
+        for where in ("main", "sub"):
+            leave = tag.split("_")[0]
+            if where == "sub" and leave == "return":
+                body2 = copy.deepcopy(body)  # (a subroutine returning uint64: Return(Int(1)) is fine as it is)
+            else:
+                body2 = copy.deepcopy(body)
+            judge(acc, nested_loop_recipe(body2, where), [4, 6, 8, 10][(j // 3) % 4], "app", ss=bool((j // 5) % 2), origin="terminal_arm_" + tag, run_echo=False)
+            acc.counters["terminal_arms"] += 1
     # ---- nested loops with jumps
     fam = nested_loop_family()
     for j, (tag, body) in enumerate(fam):
@@ -486,6 +498,41 @@ def diamond_family():
                         out.append(("while", [["while", C(1), ["seq", [join, load, ["break"]]]]]))
                         out.append(("for", [["for", ["store", "k", ["int", 0]], ["bin", "<", ["load", "k"], ["int", 2]], ["store", "k", ["bin", "+", ["load", "k"], ["int", 1]]],
                                             ["seq", [join, ["if", C(2), ["break"], None], load]]]]))
+    return out
+
+
+def terminal_arm_family():
+    """Arms of a conditional that store a variable and then leave the routine (Return / Approve / Reject / Err), with the load on the
+    other arm, after the join, or in a later conditional: what a terminating arm stored is stored on no path that continues."""
+    C = lambda i: ["bin", "==", ["bin", "%", ["btoi", ["txna", "ApplicationArgs", 0]], ["int", 4]], ["int", i]]  # noqa: E731
+    S, L = ["store", "a", ["int", 1]], ["pop", ["load", "a"]]
+    out = []
+    for leave in (["return", ["int", 1]], ["approve"], ["reject"], ["err"]):
+        arm = ["seq", [S, leave]]
+        for form in ("if", "ifelse_first", "ifelse_second", "cond_first", "cond_middle", "ifchain"):
+            if form == "if":
+                cond = ["if", C(0), arm, None]
+            elif form == "ifelse_first":
+                cond = ["if", C(0), arm, ["nop"]]
+            elif form == "ifelse_second":
+                cond = ["if", C(0), ["nop"], arm]
+            elif form == "cond_first":
+                cond = ["cond", [[C(0), arm], [["int", 1], ["nop"]]]]
+            elif form == "cond_middle":
+                cond = ["cond", [[C(0), ["nop"]], [C(1), arm], [["int", 1], ["nop"]]]]
+            else:
+                cond = ["ifchain", [[C(0), arm], [C(1), ["nop"]]], ["nop"]]
+            for where_load in ("after", "later_arm", "loop_after", "stored_on_other_arm_too"):
+                if where_load == "after":
+                    body = [cond, L]
+                elif where_load == "later_arm":
+                    body = [cond, ["if", C(2), L, None]]
+                elif where_load == "loop_after":
+                    body = [cond, ["while", C(3), ["seq", [L, ["break"]]]]]
+                else:
+                    # the continuing paths store the variable themselves: this one is clean
+                    body = [cond, S, L]
+                out.append(("%s_%s_%s" % (leave[0], form, where_load), body))
     return out
 
 
